@@ -63,6 +63,7 @@ func miniCRS() core.Tree {
 		"regex-assembly/123456.ra":                            "##! Please refer to the documentation at\n##! https://coreruleset.org/docs/development/regex_assembly/.\n\nfoo\nbar\n",
 		"regex-assembly/123457-chain1.ra":                     "   baz\nqux\n\n",
 		"regex-assembly/include/inc.ra":                       "xa\n  yb\n",
+		"regex-assembly/include/a--b.ra":                      "dashes\n",
 		"regex-assembly/exclude/ex.ra":                        "yb\n",
 		"regex-assembly/sub/111113.ra":                        "nested\n",
 		"rules/REQUEST-123-TEST.conf":                         rulesFile(ruleSpec{ID: "123456", Regex: "OLD"}, ruleSpec{ID: "123457", Regex: "keep", Chain: []string{"OLDCHAIN"}}),
